@@ -1,5 +1,4 @@
 import argparse
-import codecs
 import os
 import platform
 import sys
@@ -38,8 +37,10 @@ def main_cli():
 
 
     try:
-        codecs.lookup(args.charset)
-    except LookupError:
+        # Not just codecs.lookup(): 'hex' or 'rot13' are codecs, but not text
+        # encodings, and 'undefined' fails on every use
+        "".encode(args.charset)
+    except (LookupError, ValueError):
         print(f"'{args.charset}' encoding is unsupported", file=sys.stderr)
         sys.exit(1)
 
